@@ -108,7 +108,12 @@ def make_cold(name, slow_steps, stats):
             for i in range(slow_steps):
                 sim.yield_point(("slow-compile", name, i))
         stats.inside -= 1
-        return orig
+
+        # like a real decorator, every compilation yields a distinct callable object
+        def compiled(*args, **kwargs):
+            return orig(*args, **kwargs)
+
+        return compiled
 
     fresh = helper.lazycompile(stub_decorator)(f)
     if isinstance(fresh, types.FunctionType):
